@@ -582,6 +582,20 @@ def c20_twins(scn):
             return cb
         return factory
 
+    # the goal predicate fails at exactly the call at which the planner would have reached the
+    # goal: a dry run without faults finds the last is_satisfied call that answered True
+    if target == 2 and kth > 0 and scn["params"].get("fault_at_goal_call"):
+        answers = []
+
+        def spy(ncall, s):
+            g = goal_ref[0]
+            answers.append(g.space.distance(g.target, s) <= g.radius)
+            return None
+        run_scenario(scn, validity=None, goal_fault=spy, goal_ref=goal_ref)
+        hits = [i + 1 for i, a in enumerate(answers) if a]
+        if hits:
+            kth = hits[-1] if kind % 2 == 0 else hits[0]
+
     def make_goal_fault(faulty):
         if target != 2:
             return None
